@@ -22,6 +22,22 @@ def MultiLast : List FArg → Prop
   | [_] => True
   | a :: b :: r => a.multi = false ∧ MultiLast (b :: r)
 
+/-- `multiLastB` (Model/Parser.lean, evaluated by the driver on every format read from the real builder) decides `MultiLast` -/
+theorem multiLastB_iff : ∀ (l : List FArg), multiLastB l = true ↔ MultiLast l
+  | [] => by simp [multiLastB, MultiLast]
+  | [_] => by simp [multiLastB, MultiLast]
+  | a :: b :: r => by
+    have ih := multiLastB_iff (b :: r)
+    simp only [multiLastB, MultiLast, Bool.and_eq_true, Bool.not_eq_true', ih]
+
+/-- `nodupKeysB` decides that the argument keys are distinct -/
+theorem nodupKeysB_iff : ∀ (l : List FArg), nodupKeysB l = true ↔ (l.map (·.key)).Nodup
+  | [] => by simp [nodupKeysB]
+  | a :: r => by
+    have ih := nodupKeysB_iff r
+    simp only [nodupKeysB, List.map_cons, List.nodup_cons, Bool.and_eq_true, Bool.not_eq_true', ih,
+      List.any_eq_false, beq_iff_eq, List.mem_map, not_exists, not_and]
+
 /-- assign values to arguments in order; a multi-valued argument takes all that is left;
 values without an argument are dropped -/
 def fill : List V → List FArg → List (ArgKey × RawArg)
